@@ -87,7 +87,9 @@ func main() {
 		if tier != "quick" && tier != "thorough" {
 			tier = "quick"
 		}
-		os.Exit(runCheck(os.Args[2], tier, onlyCfg))
+		code := runCheck(os.Args[2], tier, onlyCfg)
+		dumpNames()
+		os.Exit(code)
 	case "selftest":
 		os.Exit(selftestMain(os.Args[2:]))
 	default:
